@@ -135,7 +135,7 @@ def sanitize(s):
     return re.sub(r"[^A-Za-z0-9_.=-]+", "_", s)[:120]
 
 
-def run_property(pid, tier, only_unit=None, extra_env=None, keep=False):
+def run_property(pid, tier, only_unit=None, extra_env=None, keep=False, replay_sig=None):
     t0 = time.time()
     prop = U.PROPS[pid]
     units = [u for u in prop["units"] if only_unit in (None, u["name"])]
@@ -197,6 +197,13 @@ def run_property(pid, tier, only_unit=None, extra_env=None, keep=False):
     finally:
         if not keep:
             shutil.rmtree(scratch, ignore_errors=True)
+    if replay_sig is not None:
+        # replay mode: no evidence is written; report whether the recorded failure shows again
+        found = any(v["sig"] == replay_sig for L in layers for v in (L.get("violations") or []))
+        log("REPLAY %s sig=%s: %s" % (pid, replay_sig, "REPRODUCED" if found else "not reproduced"))
+        if found:
+            log("VIOLATION property=%s replay=%s" % (pid, extra_env.get("VERIF_REPLAY")))
+        return 1 if found else 0
     return finish(pid, tier, layers, crashes, infra_error, time.time() - t0)
 
 
@@ -361,6 +368,7 @@ def main(argv):
     extra = {}
     only = None
     keep = False
+    replay_sig = None
     i = 1
     while i < len(argv):
         a = argv[i]
@@ -372,6 +380,11 @@ def main(argv):
             extra["VERIF_REPLAY"] = os.path.abspath(argv[i])
             extra["VERIF_ONLY_SIG"] = rp.get("sig", "")
             only = U.layer_unit(pid, rp.get("layer"))
+            det = rp.get("detail") or {}
+            if isinstance(det, dict) and det.get("schedule") is not None and det.get("scenario"):
+                extra["VERIF_REPLAY_SCHEDULE"] = ",".join(str(c) for c in det["schedule"]) or "0"
+                extra["VERIF_REPLAY_SCENARIO"] = det["scenario"]
+            replay_sig = rp.get("sig", "")
         elif a == "--unit":
             i += 1
             only = argv[i]
@@ -381,4 +394,6 @@ def main(argv):
             k, v = a.split("=", 1)
             extra[k] = v
         i += 1
+    if replay_sig is not None:
+        return run_property(pid, tier, only_unit=only, extra_env=extra, keep=keep, replay_sig=replay_sig)
     return run_property(pid, tier, only_unit=only, extra_env=extra, keep=keep)
